@@ -214,7 +214,7 @@ func (p *proc) kill() {
 // evaluation that killed (or hung) a child. Both are serialised. Returns the number of chunks done.
 func supervise(o supOpts, onResult func(chunk int, res string), onEvent func(ev event)) int {
 	if o.Silent == 0 {
-		o.Silent = 10 * time.Minute
+		o.Silent = 15 * time.Minute
 	}
 	var mu sync.Mutex
 	var next atomic.Int64
